@@ -89,6 +89,22 @@ pub fn is_harness_location(loc: &str) -> bool {
     loc.starts_with("src/") || loc.contains("/verif/")
 }
 
+/// Stable short form of a panic location: registry prefix and /repo/ stripped, column dropped.
+pub fn short_location(loc: &str) -> String {
+    let mut s = loc;
+    if let Some(i) = s.find("/registry/src/") {
+        let rest = &s[i + "/registry/src/".len()..];
+        s = rest.split_once('/').map(|(_, r)| r).unwrap_or(rest);
+    } else if let Some(r) = s.strip_prefix("/repo/") {
+        s = r;
+    }
+    let mut parts: Vec<&str> = s.split(':').collect();
+    if parts.len() >= 3 {
+        parts.pop();
+    }
+    parts.join(":")
+}
+
 pub fn run_once(
     world: &Arc<dyn World>,
     seed: u64,
